@@ -29,6 +29,14 @@ class StepLimit(Exception):
     pass
 
 
+class Num(int):
+    """an integer as a user gets it from a configuration reader or a numeric library: EQUAL to the plain int,
+    hashable like it, but never the same object as the interpreter's cached small ints or as the number stored
+    elsewhere (arithmetic on it yields plain ints again).  A correct library compares numbers by value, never by
+    identity or exact type."""
+    __slots__ = ()
+
+
 def weight_of(seed, wmod, t, asset, act, prio):
     if wmod == 0:
         return 0
@@ -155,6 +163,14 @@ class Runner:
         self.eids = {}
         self.keep = []
         self.lastline = {}
+        self._numc = 0
+
+    def N(self, v):
+        """integer PARAMETER or asset id handed to the library: two out of three are fresh `Num` instances (see
+        there); nothing of this shows in the observation stream of a correct library"""
+        v = int(v)
+        self._numc += 1
+        return v if self._numc % 3 == 0 else Num(v)
 
     # ---- canonicalisation -----------------------------------------------------------------
     def canon_asset(self, asset_id):
@@ -163,7 +179,9 @@ class Runner:
         return asset_id
 
     def real_asset(self, a):
-        return a
+        # the id given to schedule / pause / unpause / cancel is equal to, but mostly not the same object as,
+        # the id stored in the events it has to match
+        return self.N(a)
 
     def act_code(self, action):
         if isinstance(action, ScriptAction):
